@@ -12,5 +12,6 @@ open ColumnVerif.Skel
 
 theorem dict_version_matches : ColumnVerif.Generated.dictVersion = expectedDictVersion := by decide +kernel
 theorem flag_computedAfterColumn : computedAfterColumn = true := by decide +kernel
+theorem flag_backfillLatched : backfillLatched = true := by decide +kernel
 
 end ColumnVerif.Props.C03skel
